@@ -46,6 +46,10 @@ fn near(r: &mut impl Rng, limits: &[usize], floor: usize) -> (usize, bool) {
         return (floor + r.gen_range(0..64), false);
     }
     let l = limits[r.gen_range(0..limits.len())];
+    // (next to a limit beyond 32 bits there is nothing to send: sizes around its low 32 bits instead)
+    if l > (1 << 30) {
+        return ((l & 0xffff_ffff).max(floor) + r.gen_range(0..3usize), false);
+    }
     let d: i64 = r.gen_range(-2..=2);
     let v = (l as i64 + d).max(floor as i64) as usize;
     (v, true)
@@ -61,10 +65,13 @@ fn run(input: RunInput) -> ScenFuture {
         let added = if !class8m && w.flag("caller_outbound_layer_adds_a_header", 0.25) { w.param("added_header_bytes", 1, 300) as usize } else { 0 };
         let added_entry = if added > 0 { 8 + "x-added".len() + 8 + added } else { 0 };
         let mut lr = w.rng("cfg:limits");
-        let mut pick = |r: &mut rand::rngs::StdRng| match r.gen_range(0..4) {
-            0 => r.gen_range(40..64usize),
-            1 => r.gen_range(64..2000),
-            2 => r.gen_range(2000..70_000),
+        let mut pick = |r: &mut rand::rngs::StdRng| match r.gen_range(0..25) {
+            // (a limit beyond what the 4-byte length field can express is a limit like any other:
+            // nothing the scenario sends comes near it)
+            24 => (1usize << 32) + r.gen_range(0..3000usize),
+            x if x % 4 == 0 => r.gen_range(40..64usize),
+            x if x % 4 == 1 => r.gen_range(64..2000),
+            x if x % 4 == 2 => r.gen_range(2000..70_000),
             _ => r.gen_range(70_000..262_144),
         };
         // (every limit leaves room for the small follow-up request, added header included)
